@@ -75,15 +75,18 @@ from harness import core  # noqa: E402
 LOG_NAMES = ['log', 'eqn', 'timeseries', 'step', 'steadystate_0']
 PRODUCE = ('Main', 'Solve', 'SolveAgain')
 
+# (body A has a float-valued and an integer-valued constant: `a = 3.0`, `n = 2` - the two take different branches of the
+# solver's time-zero pass, which also writes log lines when a log is registered)
 BODIES = {
     'A': {'text': """
 x = 0.5*LAG_x + g
 LAG_x = x(k-1)
-y = x + a
+y = x + a + n
 a = 3.0
+n = 2
 exogenous
 g = [1.0, 2.0, 3.0, 4.0, 5.0, 6.0]
-""", 'func': False, 'declared': ['LAG_x', 'a', 'g', 'x', 'y']},
+""", 'func': False, 'declared': ['LAG_x', 'a', 'g', 'n', 'x', 'y']},
     'B': {'text': """
 x = f(w) + 0.25*LAG_x
 LAG_x = x(k-1)
